@@ -7,7 +7,8 @@
 REPO    ?= /repo
 VERIF   ?= /verif
 FLAVOUR ?= plain
-B       := $(VERIF)/build/$(FLAVOUR)
+BUILD   ?= $(VERIF)/build
+B       := $(BUILD)/$(FLAVOUR)
 GUARD   := -DDWGREP_VERIF
 
 CXX     := g++
